@@ -18,6 +18,9 @@ type corpusEntry struct {
 
 var corpusList []corpusEntry
 
+// a fixed genesis time keeps block hashes (and with them every generator choice) a function of VERIF_SEED only
+const fixedGenesisTime = 1700000000
+
 func corpusByName(n string) *corpusEntry {
 	for i := range corpusList {
 		if corpusList[i].name == n {
@@ -28,7 +31,7 @@ func corpusByName(n string) *corpusEntry {
 }
 
 func runScenario(name string, alloc bool, sub uint64, size int) {
-	opts := chainkit.Opts{Testnet: true} // testnet rule set = same consensus code, fewer console prints
+	opts := chainkit.Opts{Testnet: true, GenesisTime: fixedGenesisTime} // testnet rule set = same consensus code, fewer console prints
 	var body func(s *scen)
 	if name == "random" {
 		body = func(s *scen) { genRandom(s, size) }
@@ -136,13 +139,17 @@ func (tg *txGen) spendable(allowLocal bool) []outpoint {
 	if allowLocal {
 		add(tg.local)
 	}
+	sortOps(ops)
+	return ops
+}
+
+func sortOps(ops []outpoint) {
 	sort.Slice(ops, func(i, j int) bool {
 		if ops[i].Txid != ops[j].Txid {
 			return string(ops[i].Txid[:]) < string(ops[j].Txid[:])
 		}
 		return ops[i].Vout < ops[j].Vout
 	})
-	return ops
 }
 
 func (tg *txGen) coin(op outpoint) rCoin {
@@ -248,9 +255,7 @@ func (s *scen) makeBlock(parent *rBlock, kind string, allEver map[outpoint]rCoin
 				cands = append(cands, op)
 			}
 		}
-		sort.Slice(cands, func(i, j int) bool {
-			return string(cands[i].Txid[:])+fmt.Sprint(cands[i].Vout) < string(cands[j].Txid[:])+fmt.Sprint(cands[j].Vout)
-		})
+		sortOps(cands)
 		if len(cands) > 0 {
 			op := cands[g.Intn(len(cands))]
 			c := allEver[op]
@@ -269,7 +274,7 @@ func (s *scen) makeBlock(parent *rBlock, kind string, allEver map[outpoint]rCoin
 				cands = append(cands, op)
 			}
 		}
-		sort.Slice(cands, func(i, j int) bool { return string(cands[i].Txid[:]) < string(cands[j].Txid[:]) })
+		sortOps(cands)
 		if len(cands) > 0 {
 			op := cands[g.Intn(len(cands))]
 			c := ctx.view[op]
@@ -287,7 +292,7 @@ func (s *scen) makeBlock(parent *rBlock, kind string, allEver map[outpoint]rCoin
 				cands = append(cands, op)
 			}
 		}
-		sort.Slice(cands, func(i, j int) bool { return string(cands[i].Txid[:]) < string(cands[j].Txid[:]) })
+		sortOps(cands)
 		if len(cands) > 0 {
 			tx := tg.spend([]outpoint{cands[g.Intn(len(cands))]}, 1, 0, false)
 			s.badTx[tx.Hash.Hash] = true
